@@ -7,7 +7,15 @@
  * lookup with a literal key on a havocked object folds to a constant slot during symbolic
  * execution.  Capacities (VJ_MAXM members/elements, VJ_KLEN key bytes, VJ_SLEN string bytes) are
  * bounds of the encoding: exceeding one is a failed "bound:" property, never a silent pass.
- * Deletion/copy are written depth-indexed (no recursion) for trees of depth <= 2 below the root.
+ *
+ * Lifetime is flattened (no recursion, no nest): every node carries the WEIGHT of its subtree
+ * (number of nodes).  json_delete(v) marks v and its directly owned children dead and subtracts
+ * their weights from the live counter vj_live; storage of JSON nodes is never handed back to
+ * CBMC's free() (a use of a released ROOT or first-level value through the API is still caught:
+ * every API entry asserts the node is not dead).  json_deep_copy makes real copies of the root
+ * and of its first-level members and shares deeper levels (accounted in vj_live as if copied);
+ * mutation is only allowed on nodes that are not attached below another node (asserted as a
+ * "bound:"), which is all libjwt ever does.
  */
 #include <stdlib.h>
 #include <string.h>
@@ -58,6 +66,9 @@ vj_t *vj_new(json_type t)
 	v->ival = 0;
 	v->n = 0;
 	v->nk = 0;
+	v->weight = 1;
+	v->dead = 0;
+	v->attached = 0;
 	for (k = 0; k < VJ_MAXM; k++) {
 		v->val[k] = NULL;
 		v->key[k][0] = '\0';
@@ -67,67 +78,71 @@ vj_t *vj_new(json_type t)
 	return v;
 }
 
-static void vj_release(vj_t *v)
-{
-	vj_live--;
-#ifndef VF_FREE_NOOP
-	free(v);
-#endif
-}
-
-/* ---- deletion, depth-indexed: level 0 = leaf (children ignored: none by construction) ---- */
-static void vj_del0(vj_t *v)
-{
-	VF_BOUND(v->nk == 0, "JSON tree deeper than the model's depth-indexed delete (VJ_DEPTH)");
-	vj_release(v);
-}
-
-#define VJ_DECREF(fn, c) do { vj_t *c_ = (c); \
-	if (c_ && c_->j.refcount != (size_t)-1 && --c_->j.refcount == 0) fn(c_); } while (0)
-
-static void vj_del1(vj_t *v)
-{
-	unsigned k;
-	if (v->j.type == JSON_OBJECT || v->j.type == JSON_ARRAY)
-		for (k = 0; k < VJ_MAXM; k++)
-			VJ_DECREF(vj_del0, v->val[k]);
-	vj_release(v);
-}
-
-static void vj_del2(vj_t *v)
-{
-	unsigned k;
-	if (v->j.type == JSON_OBJECT || v->j.type == JSON_ARRAY)
-		for (k = 0; k < VJ_MAXM; k++)
-			VJ_DECREF(vj_del1, v->val[k]);
-	vj_release(v);
-}
-
-#ifndef VJ_DEPTH
-#define VJ_DEPTH 3          /* maximal depth of any tree below its root */
-#endif
-#if VJ_DEPTH <= 1
-#define VJ_DEL_CHILD vj_del0
-#define VJ_COPY_ROOT vj_copy1
-#elif VJ_DEPTH == 2
-#define VJ_DEL_CHILD vj_del1
-#define VJ_COPY_ROOT vj_copy2
+/* use-after-release / double-release checks on JSON values: enabled in the memory-safety
+ * harnesses (-DVJ_CHECK_DEAD); verdict harnesses leave them out to keep the query small */
+#ifdef VJ_CHECK_DEAD
+#define VJ_ALIVE(j_) __CPROVER_assert(!(j_) || !VJ(j_)->dead, "model: use of a released JSON value")
 #else
-#define VJ_DEL_CHILD vj_del2
-#define VJ_COPY_ROOT vj_copy3
+#define VJ_ALIVE(j_) ((void)0)
 #endif
+#define VJ_ROOT(j_) VF_BOUND(!VJ(j_)->attached, "mutation of a JSON container nested inside another one")
 
 void json_delete(json_t *json)
 {
 	vj_t *v = VJ(json);
-	unsigned k;
+	unsigned k, released;
 
 	if (!v)
 		return;
-	if (v->j.type == JSON_OBJECT || v->j.type == JSON_ARRAY)
-		for (k = 0; k < VJ_MAXM; k++)
-			VJ_DECREF(VJ_DEL_CHILD, v->val[k]);
-	vj_release(v);
+#ifdef VJ_CHECK_DEAD
+	__CPROVER_assert(!v->dead, "model: JSON value released twice");
+#endif
+	v->dead = 1;
+	released = 1;
+	if (v->j.type == JSON_OBJECT || v->j.type == JSON_ARRAY) {
+		for (k = 0; k < VJ_MAXM; k++) {
+			vj_t *c = v->val[k];
+			if (!c || c->j.refcount == (size_t)-1)
+				continue;
+			if (c->j.refcount <= 1) {
+				c->dead = 1;
+				c->j.refcount = 0;
+				released += c->weight;
+			} else {
+				c->j.refcount--;
+				c->attached = 0;
+			}
+		}
+	}
+	vj_live -= released;
+}
+
+/* attach value as a member of o (bookkeeping shared by every mutator) */
+static void vj_attach(vj_t *o, unsigned k, vj_t *c)
+{
+	o->val[k] = c;
+	o->nk++;
+	o->weight += c->weight;
+	if (c->j.refcount != (size_t)-1)
+		c->attached = 1;
+}
+
+void vj_attach_member(vj_t *o, unsigned k, vj_t *c)
+{
+	vj_attach(o, k, c);
+}
+
+/* detach member k of o and drop the reference o held */
+static void vj_detach(vj_t *o, unsigned k)
+{
+	vj_t *c = o->val[k];
+
+	o->val[k] = NULL;
+	o->nk--;
+	o->weight -= c->weight;
+	if (c->j.refcount != (size_t)-1 && c->j.refcount <= 1)
+		c->attached = 0;
+	json_decref(&c->j);
 }
 
 /* ---- constructors ---- */
@@ -176,9 +191,9 @@ json_t *json_integer(json_int_t value)
 	return &v->j;
 }
 
-static vj_t vj_true_s = { { JSON_TRUE, (size_t)-1 } };
-static vj_t vj_false_s = { { JSON_FALSE, (size_t)-1 } };
-static vj_t vj_null_s = { { JSON_NULL, (size_t)-1 } };
+static vj_t vj_true_s = { { JSON_TRUE, (size_t)-1 }, .weight = 0 };
+static vj_t vj_false_s = { { JSON_FALSE, (size_t)-1 }, .weight = 0 };
+static vj_t vj_null_s = { { JSON_NULL, (size_t)-1 }, .weight = 0 };
 
 json_t *json_true(void) { return &vj_true_s.j; }
 json_t *json_false(void) { return &vj_false_s.j; }
@@ -187,6 +202,7 @@ json_t *json_null(void) { return &vj_null_s.j; }
 /* ---- accessors ---- */
 const char *json_string_value(const json_t *json)
 {
+	VJ_ALIVE(json);
 	if (!json || json->type != JSON_STRING)
 		return NULL;
 	return VJ(json)->s;
@@ -194,6 +210,7 @@ const char *json_string_value(const json_t *json)
 
 json_int_t json_integer_value(const json_t *json)
 {
+	VJ_ALIVE(json);
 	if (!json || json->type != JSON_INTEGER)
 		return 0;
 	return VJ(json)->ival;
@@ -205,16 +222,24 @@ static int vj_keyeq(const char *slotkey, const char *key)
 	return strcmp(slotkey, key) == 0;
 }
 
+static int vj_key_high(const char *key)
+{
+	unsigned i;
+	for (i = 0; i < VJ_KLEN; i++) {
+		if (!key[i])
+			break;
+		if (((unsigned char)key[i]) >= 0x80)
+			return 1;
+	}
+	return 0;
+}
+
 size_t json_object_size(const json_t *object)
 {
-	unsigned k;
-	size_t n = 0;
+	VJ_ALIVE(object);
 	if (!object || object->type != JSON_OBJECT)
 		return 0;
-	for (k = 0; k < VJ_MAXM; k++)
-		if (VJ(object)->val[k])
-			n++;
-	return n;
+	return VJ(object)->nk;
 }
 
 json_t *json_object_get(const json_t *object, const char *key)
@@ -222,6 +247,7 @@ json_t *json_object_get(const json_t *object, const char *key)
 	vj_t *o = VJ(object);
 	unsigned k;
 
+	VJ_ALIVE(object);
 	if (!key || !object || object->type != JSON_OBJECT)
 		return NULL;
 	for (k = 0; k < VJ_MAXM; k++)
@@ -236,17 +262,25 @@ int json_object_set_new(json_t *object, const char *key, json_t *value)
 	unsigned k;
 	size_t klen;
 
+	VJ_ALIVE(object);
+	VJ_ALIVE(value);
 	if (!value)
 		return -1;
 	if (!key || !object || object->type != JSON_OBJECT || object == value) {
 		json_decref(value);
 		return -1;
 	}
-	/* same key already there (present or a vacated slot): reuse the slot */
+	/* keys must be valid UTF-8 as well */
+	if (vj_key_high(key) && nondet_bool()) {
+		json_decref(value);
+		return -1;
+	}
+	VJ_ROOT(object);
+	/* same key already present: the value is replaced in place */
 	for (k = 0; k < VJ_MAXM; k++) {
 		if (o->val[k] && vj_keyeq(o->key[k], key)) {
-			json_decref(&o->val[k]->j);
-			o->val[k] = VJ(value);
+			vj_detach(o, k);
+			vj_attach(o, k, VJ(value));
 			return 0;
 		}
 	}
@@ -255,10 +289,10 @@ int json_object_set_new(json_t *object, const char *key, json_t *value)
 		json_decref(value);
 		return -1;
 	}
+	/* a vacated slot that still carries this key text is reused (keeps lookups foldable) */
 	for (k = 0; k < VJ_MAXM; k++) {
 		if (!o->val[k] && vj_keyeq(o->key[k], key)) {
-			o->val[k] = VJ(value);
-			o->nk++;
+			vj_attach(o, k, VJ(value));
 			return 0;
 		}
 	}
@@ -269,8 +303,7 @@ int json_object_set_new(json_t *object, const char *key, json_t *value)
 			size_t i;
 			for (i = 0; i <= VJ_KLEN; i++)
 				o->key[k][i] = (i < klen) ? key[i] : '\0';
-			o->val[k] = VJ(value);
-			o->nk++;
+			vj_attach(o, k, VJ(value));
 			return 0;
 		}
 	}
@@ -283,13 +316,13 @@ int json_object_del(json_t *object, const char *key)
 	vj_t *o = VJ(object);
 	unsigned k;
 
+	VJ_ALIVE(object);
 	if (!key || !object || object->type != JSON_OBJECT)
 		return -1;
 	for (k = 0; k < VJ_MAXM; k++) {
 		if (o->val[k] && vj_keyeq(o->key[k], key)) {
-			json_decref(&o->val[k]->j);
-			o->val[k] = NULL;
-			o->nk--;
+			VJ_ROOT(object);
+			vj_detach(o, k);
 			return 0;
 		}
 	}
@@ -301,15 +334,13 @@ int json_object_clear(json_t *object)
 	vj_t *o = VJ(object);
 	unsigned k;
 
+	VJ_ALIVE(object);
 	if (!object || object->type != JSON_OBJECT)
 		return -1;
-	for (k = 0; k < VJ_MAXM; k++) {
-		if (o->val[k]) {
-			json_decref(&o->val[k]->j);
-			o->val[k] = NULL;
-		}
-	}
-	o->nk = 0;
+	VJ_ROOT(object);
+	for (k = 0; k < VJ_MAXM; k++)
+		if (o->val[k])
+			vj_detach(o, k);
 	return 0;
 }
 
@@ -317,6 +348,8 @@ int json_object_update(json_t *object, json_t *other)
 {
 	unsigned k;
 
+	VJ_ALIVE(object);
+	VJ_ALIVE(other);
 	if (!object || object->type != JSON_OBJECT || !other || other->type != JSON_OBJECT)
 		return -1;
 	for (k = 0; k < VJ_MAXM; k++) {
@@ -331,6 +364,8 @@ int json_object_update_missing(json_t *object, json_t *other)
 {
 	unsigned k;
 
+	VJ_ALIVE(object);
+	VJ_ALIVE(other);
 	if (!object || object->type != JSON_OBJECT || !other || other->type != JSON_OBJECT)
 		return -1;
 	for (k = 0; k < VJ_MAXM; k++) {
@@ -344,6 +379,7 @@ int json_object_update_missing(json_t *object, json_t *other)
 /* ---- arrays ---- */
 size_t json_array_size(const json_t *array)
 {
+	VJ_ALIVE(array);
 	if (!array || array->type != JSON_ARRAY)
 		return 0;
 	return VJ(array)->n;
@@ -352,6 +388,7 @@ size_t json_array_size(const json_t *array)
 json_t *json_array_get(const json_t *array, size_t index)
 {
 	vj_t *a = VJ(array);
+	VJ_ALIVE(array);
 	if (!array || array->type != JSON_ARRAY || index >= a->n)
 		return NULL;
 	VF_BOUND(index < VJ_MAXM, "array index beyond VJ_MAXM");
@@ -362,6 +399,8 @@ int json_array_append_new(json_t *array, json_t *value)
 {
 	vj_t *a = VJ(array);
 
+	VJ_ALIVE(array);
+	VJ_ALIVE(value);
 	if (!value)
 		return -1;
 	if (!array || array->type != JSON_ARRAY || array == value) {
@@ -372,83 +411,82 @@ int json_array_append_new(json_t *array, json_t *value)
 		json_decref(value);
 		return -1;
 	}
+	VJ_ROOT(array);
 	VF_BOUND(a->n < VJ_MAXM, "array capacity VJ_MAXM exceeded");
-	a->val[a->n++] = VJ(value);
-	a->nk++;
+	vj_attach(a, a->n, VJ(value));
+	a->n++;
 	return 0;
 }
 
-/* ---- deep copy, depth-indexed ---- */
+/* ---- deep copy: real copies of the root and of its members, deeper levels shared ---- */
 static vj_t *vj_copy_node(const vj_t *s)
 {
 	vj_t *d;
 	unsigned k, i;
 
-	if (s->j.type == JSON_TRUE || s->j.type == JSON_FALSE || s->j.type == JSON_NULL) {
-		if (s->j.refcount == (size_t)-1)
-			return (vj_t *)s;   /* singletons are shared, as in jansson */
-	}
+	if (s->j.refcount == (size_t)-1)
+		return (vj_t *)s;           /* singletons are shared, as in jansson */
 	d = vj_new(s->j.type);
 	if (!d)
 		return NULL;
 	d->ival = s->ival;
 	d->n = s->n;
 	d->nk = s->nk;
+	d->weight = s->weight;
 	for (i = 0; i <= VJ_SLEN; i++)
 		d->s[i] = s->s[i];
-	for (k = 0; k < VJ_MAXM; k++)
+	for (k = 0; k < VJ_MAXM; k++) {
+		d->val[k] = s->val[k];      /* shared below this level */
 		for (i = 0; i <= VJ_KLEN; i++)
 			d->key[k][i] = s->key[k][i];
+	}
 	return d;
-}
-
-static vj_t *vj_copy0(const vj_t *s)
-{
-	return vj_copy_node(s);
-}
-
-#define VJ_COPY_BODY(child_copy, child_del)                                               \
-	vj_t *d = vj_copy_node(s);                                                         \
-	unsigned k;                                                                        \
-	if (!d || d == s)                                                                  \
-		return d;                                                                  \
-	if (s->j.type == JSON_OBJECT || s->j.type == JSON_ARRAY) {                         \
-		for (k = 0; k < VJ_MAXM; k++) {                                            \
-			if (s->val[k]) {                                                   \
-				d->val[k] = child_copy(s->val[k]);                         \
-				if (!d->val[k]) { /* out of memory: jansson unwinds */    \
-					unsigned q;                                        \
-					for (q = 0; q < k; q++)                            \
-						VJ_DECREF(child_del, d->val[q]);           \
-					vj_release(d);                                     \
-					return NULL;                                       \
-				}                                                          \
-			}                                                                  \
-		}                                                                          \
-	}                                                                                  \
-	return d;
-
-static vj_t *vj_copy1(const vj_t *s) { VJ_COPY_BODY(vj_copy0, vj_del0) }
-static vj_t *vj_copy2(const vj_t *s) { VJ_COPY_BODY(vj_copy1, vj_del1) }
-static vj_t *vj_copy3(const vj_t *s) { VJ_COPY_BODY(vj_copy2, vj_del2) }
-
-/* harness helper: clone of a tree whose members are scalars or empty containers */
-json_t *vj_clone(const json_t *value)
-{
-	vj_t *d;
-	if (!value)
-		return NULL;
-	d = vj_copy1(VJ(value));
-	return d ? &d->j : NULL;
 }
 
 json_t *json_deep_copy(const json_t *value)
 {
+	const vj_t *s = VJ(value);
 	vj_t *d;
+	unsigned k;
+	long added = 1;
+
+	VJ_ALIVE(value);
 	if (!value)
 		return NULL;
-	d = VJ_COPY_ROOT(VJ(value));
-	return d ? &d->j : NULL;
+	d = vj_copy_node(s);
+	if (!d || d == s)
+		return d ? &d->j : NULL;
+	if (s->j.type == JSON_OBJECT || s->j.type == JSON_ARRAY) {
+		for (k = 0; k < VJ_MAXM; k++) {
+			vj_t *c;
+			if (!s->val[k])
+				continue;
+			c = vj_copy_node(s->val[k]);
+			if (!c) {
+				/* out of memory: jansson unwinds the partial copy */
+				unsigned q;
+				for (q = 0; q < k; q++)
+					if (s->val[q] && d->val[q]->j.refcount != (size_t)-1)
+						d->val[q]->dead = 1;
+				d->dead = 1;
+				vj_live -= added;
+				return NULL;
+			}
+			d->val[k] = c;
+			if (c->j.refcount != (size_t)-1) {
+				c->attached = 1;
+				/* descendants below the member are shared but accounted as copied */
+				vj_live += (long)c->weight - 1;
+				added += (long)c->weight;
+			}
+		}
+	}
+	return &d->j;
+}
+
+json_t *vj_clone(const json_t *value)
+{
+	return json_deep_copy(value);
 }
 
 /* ---- reference deep equality (used by harnesses only) ---- */
@@ -471,8 +509,6 @@ static int vj_eq_node(const vj_t *a, const vj_t *b)
 	return 1;
 }
 
-static int vj_eq0(const vj_t *a, const vj_t *b) { return vj_eq_node(a, b); }
-
 static int vj_keys_same(const char *x, const char *y)
 {
 	unsigned i;
@@ -485,8 +521,29 @@ static int vj_keys_same(const char *x, const char *y)
 	return 1;
 }
 
+/* level 0: nodes compared by value, their members by identity (deeper levels are shared by
+ * json_deep_copy, and are immutable once attached) */
+static int vj_eq0(const vj_t *a, const vj_t *b)
+{
+	unsigned k;
+	if (a == b)
+		return 1;
+	if (!vj_eq_node(a, b))
+		return 0;
+	if (a->j.type == JSON_ARRAY || a->j.type == JSON_OBJECT) {
+		if (a->n != b->n || a->nk != b->nk)
+			return 0;
+		for (k = 0; k < VJ_MAXM; k++)
+			if (a->val[k] != b->val[k] || (a->val[k] && !vj_keys_same(a->key[k], b->key[k])))
+				return 0;
+	}
+	return 1;
+}
+
 #define VJ_EQ_BODY(child_eq)                                                              \
 	unsigned k, q;                                                                     \
+	if (a == b)                                                                        \
+		return 1;                                                                  \
 	if (!vj_eq_node(a, b))                                                             \
 		return 0;                                                                  \
 	if (a->j.type == JSON_ARRAY) {                                                     \
@@ -498,6 +555,8 @@ static int vj_keys_same(const char *x, const char *y)
 		return 1;                                                                  \
 	}                                                                                  \
 	if (a->j.type == JSON_OBJECT) {                                                    \
+		if (a->nk != b->nk)                                                        \
+			return 0;                                                          \
 		for (k = 0; k < VJ_MAXM; k++) {                                            \
 			if (a->val[k]) {                                                   \
 				int f = 0;                                                 \
@@ -509,21 +568,37 @@ static int vj_keys_same(const char *x, const char *y)
 					return 0;                                          \
 			}                                                                  \
 		}                                                                          \
-		for (q = 0; q < VJ_MAXM; q++) {                                            \
-			if (b->val[q]) {                                                   \
-				int f = 0;                                                 \
-				for (k = 0; k < VJ_MAXM; k++)                              \
-					if (a->val[k] && vj_keys_same(a->key[k], b->key[q])) \
-						f = 1;                                     \
-				if (!f)                                                    \
-					return 0;                                          \
-			}                                                                  \
-		}                                                                          \
 	}                                                                                  \
 	return 1;
 
 static int vj_eq1(const vj_t *a, const vj_t *b) { VJ_EQ_BODY(vj_eq0) }
 static int vj_eq2(const vj_t *a, const vj_t *b) { VJ_EQ_BODY(vj_eq1) }
+
+/* equality of a tree and its copy made by this model (slot positions are preserved by
+ * json_deep_copy): linear in the capacity instead of quadratic */
+int vj_equal_copy(const json_t *ja, const json_t *jb)
+{
+	const vj_t *a = VJ(ja), *b = VJ(jb);
+	unsigned k;
+
+	if (!a || !b)
+		return a == b;
+	if (a == b)
+		return 1;
+	if (!vj_eq_node(a, b))
+		return 0;
+	if (a->j.type == JSON_ARRAY || a->j.type == JSON_OBJECT) {
+		if (a->n != b->n || a->nk != b->nk)
+			return 0;
+		for (k = 0; k < VJ_MAXM; k++) {
+			if ((a->val[k] == NULL) != (b->val[k] == NULL))
+				return 0;
+			if (a->val[k] && (!vj_keys_same(a->key[k], b->key[k]) || !vj_eq0(a->val[k], b->val[k])))
+				return 0;
+		}
+	}
+	return 1;
+}
 
 int vj_equal(const json_t *a, const json_t *b)
 {
@@ -549,23 +624,34 @@ static json_type vj_nondet_type(void)
 	return (json_type)t;
 }
 
-/* any JSON type; a container comes back empty (its content is never inspected by the caller) */
-json_t *vj_havoc_scalar_or_empty(void)
+static vj_t *vj_raw(json_type t)
 {
 	vj_t *v = malloc(sizeof(vj_t));
 	unsigned k;
 
 	__CPROVER_assume(v != NULL);
-	v->j.type = vj_nondet_type();
+	v->j.type = t;
 	v->j.refcount = 1;
+	v->ival = 0;
 	v->n = 0;
 	v->nk = 0;
+	v->weight = 1;
+	v->dead = 0;
+	v->attached = 0;
 	for (k = 0; k < VJ_MAXM; k++) {
 		v->val[k] = NULL;
 		v->key[k][0] = '\0';
 	}
-	vj_havoc_payload(v);
+	v->s[0] = '\0';
 	vj_live++;
+	return v;
+}
+
+/* any JSON type; a container comes back empty (its content is never inspected by the caller) */
+json_t *vj_havoc_scalar_or_empty(void)
+{
+	vj_t *v = vj_raw(vj_nondet_type());
+	vj_havoc_payload(v);
 	return &v->j;
 }
 
@@ -591,14 +677,10 @@ json_t *vj_havoc_value(int depth)
 			v->key[k][2] = '\0';
 			if ((v->j.type == JSON_OBJECT && nondet_bool()) ||
 			    (v->j.type == JSON_ARRAY && k < n)) {
-				v->val[k] = c;
-				v->nk++;
+				vj_attach(v, k, c);
 			} else {
-				/* not attached: hand the node back */
-				vj_live--;
-#ifndef VF_FREE_NOOP
-				free(c);
-#endif
+				c->dead = 1;            /* not attached: hand the node back */
+				vj_live -= (long)c->weight;
 			}
 		}
 		if (v->j.type == JSON_ARRAY)
@@ -610,27 +692,15 @@ json_t *vj_havoc_value(int depth)
 /* object whose slot k carries alpha[k] with a symbolic presence bit and an arbitrary value */
 json_t *vj_havoc_object(const char *const *alpha, unsigned nalpha, int depth)
 {
-	vj_t *o = malloc(sizeof(vj_t));
+	vj_t *o = vj_raw(JSON_OBJECT);
 	unsigned k;
 
-	__CPROVER_assume(o != NULL);
-	o->j.type = JSON_OBJECT;
-	o->j.refcount = 1;
-	o->ival = 0;
-	o->n = 0;
-	o->nk = 0;
-	o->s[0] = '\0';
-	vj_live++;
 	VF_BOUND(nalpha <= VJ_MAXM, "alphabet larger than VJ_MAXM");
 	for (k = 0; k < VJ_MAXM; k++) {
-		o->val[k] = NULL;
-		o->key[k][0] = '\0';
 		if (k < nalpha) {
 			strcpy(o->key[k], alpha[k]);
-			if (nondet_bool()) {
-				o->val[k] = VJ(vj_havoc_value(depth));
-				o->nk++;
-			}
+			if (nondet_bool())
+				vj_attach(o, k, VJ(vj_havoc_value(depth)));
 		}
 	}
 	return &o->j;
@@ -638,24 +708,14 @@ json_t *vj_havoc_object(const char *const *alpha, unsigned nalpha, int depth)
 
 json_t *vj_havoc_array(unsigned maxn, int depth)
 {
-	vj_t *a = malloc(sizeof(vj_t));
+	vj_t *a = vj_raw(JSON_ARRAY);
 	unsigned k, n = nondet_uint();
 
-	__CPROVER_assume(a != NULL);
 	__CPROVER_assume(n <= maxn && n <= VJ_MAXM);
-	a->j.type = JSON_ARRAY;
-	a->j.refcount = 1;
-	a->ival = 0;
-	a->s[0] = '\0';
 	a->n = n;
-	a->nk = n;
-	vj_live++;
-	for (k = 0; k < VJ_MAXM; k++) {
-		a->val[k] = NULL;
-		a->key[k][0] = '\0';
+	for (k = 0; k < VJ_MAXM; k++)
 		if (k < n)
-			a->val[k] = VJ(vj_havoc_value(depth));
-	}
+			vj_attach(a, k, VJ(vj_havoc_value(depth)));
 	return &a->j;
 }
 
